@@ -360,7 +360,7 @@ class C22(Check):
         return res
 
     def replay(self, case):
-        with jitlab.JitLab(time_limit=600) as lab:
+        with jitlab.shared() as lab:
             r = judge(lab, case, case["backend"])
         if r is None or isinstance(r, str):
             return None
